@@ -3,12 +3,19 @@ package c16
 import (
 	"context"
 	"fmt"
+	"net"
+	"sync"
 	"time"
+
+	piondtls "github.com/pion/dtls/v3"
+	"github.com/plgd-dev/go-coap/v3/mux"
+	"github.com/plgd-dev/go-coap/v3/options"
 
 	"github.com/plgd-dev/go-coap/v3/message/pool"
 	tcpclient "github.com/plgd-dev/go-coap/v3/tcp/client"
 	udpclient "github.com/plgd-dev/go-coap/v3/udp/client"
 
+	"verifharness/netenv"
 	"verifharness/ref"
 	"verifharness/sim"
 	"verifharness/vr"
@@ -169,3 +176,134 @@ func wiring(rec *vr.Rec, reps int) {
 }
 
 var _ = vr.Seed
+
+// serverSide: requests a SERVER issues over a connection it accepted are limited too. A dtls (and a udp) server is
+// configured with total limit 3 / per-path limit 1 and NSTART 16; as soon as a peer shows up it fires four GETs for one
+// path and two for others over that connection. The peer is a raw socket that answers each request only after a while
+// and counts what is outstanding: never more than one request per path, never more than three in total.
+func serverSide(rec *vr.Rec, reps int) {
+	for rep := 0; rep < reps; rep++ {
+		kind := []string{"dtls", "udp"}[rep%2]
+		c := map[string]any{"scenario": "server-initiated requests over an accepted connection, limits 3 / 1", "transport": kind}
+		r := mux.NewRouter()
+		_ = r.Handle("/hello", mux.HandlerFunc(func(w mux.ResponseWriter, m *mux.Message) {}))
+		var fired sync.WaitGroup
+		onNew := func(cc *udpclient.Conn) {
+			for i, p := range []string{"/c16/a", "/c16/a", "/c16/b", "/c16/a", "/c16/c", "/c16/a"} {
+				fired.Add(1)
+				go func(i int, p string) {
+					defer fired.Done()
+					ctx, cancel := context.WithTimeout(context.Background(), 8*time.Second)
+					defer cancel()
+					if m, err := cc.Get(ctx, p); err == nil {
+						cc.ReleaseMessage(m)
+					}
+				}(i, p)
+			}
+		}
+		so := netenv.ServerOpts{Router: r}
+		so.Dtls = append(so.Dtls, options.WithLimitClientParallelRequest(3), options.WithLimitClientEndpointParallelRequest(1), options.WithTransmission(16, 2*time.Second, 2), options.WithOnNewConn(onNew))
+		so.Udp = append(so.Udp, options.WithLimitClientParallelRequest(3), options.WithLimitClientEndpointParallelRequest(1), options.WithTransmission(16, 2*time.Second, 2), options.WithOnNewConn(onNew))
+		srv, err := netenv.Start(kind, so)
+		if err != nil {
+			rec.Inconclusive("server side limits: " + err.Error())
+			return
+		}
+		var pc net.Conn
+		if kind == "dtls" {
+			ra, _ := net.ResolveUDPAddr("udp4", srv.Addr)
+			dc, derr := piondtls.Dial("udp4", ra, netenv.PSK())
+			if derr == nil {
+				hctx, hc := context.WithTimeout(context.Background(), 10*time.Second)
+				derr = dc.HandshakeContext(hctx)
+				hc()
+			}
+			if derr != nil {
+				rec.Inconclusive("server side limits: dtls peer: " + derr.Error())
+				srv.Stop()
+				continue
+			}
+			pc = dc
+		} else {
+			uc, uerr := net.Dial("udp4", srv.Addr)
+			if uerr != nil {
+				rec.Inconclusive("server side limits: " + uerr.Error())
+				srv.Stop()
+				continue
+			}
+			pc = uc
+		}
+		_, _ = pc.Write(ref.EncodeUDP(ref.Msg{Type: 1, Code: 1, MID: 9, Token: []byte{1}, Opts: []ref.Opt{{ID: 11, Val: []byte("hello")}}}))
+		var mu sync.Mutex
+		out := map[string]int{}
+		maxPath, maxTotal, answered := 0, 0, 0
+		var wwg sync.WaitGroup
+		deadline := time.Now().Add(6 * time.Second)
+		buf := make([]byte, 2048)
+		seenMID := map[uint16]bool{}
+		for time.Now().Before(deadline) {
+			mu.Lock()
+			done := answered >= 6
+			mu.Unlock()
+			if done {
+				break
+			}
+			_ = pc.SetReadDeadline(time.Now().Add(200 * time.Millisecond))
+			n, rerr := pc.Read(buf)
+			if rerr != nil {
+				continue
+			}
+			m, perr := ref.ParseUDP(buf[:n])
+			if perr != nil || m.Code != 1 || seenMID[m.MID] {
+				continue
+			}
+			seenMID[m.MID] = true
+			p := ref.PathOf(m)
+			mu.Lock()
+			out[p]++
+			tot := 0
+			for _, v := range out {
+				tot += v
+			}
+			if out[p] > maxPath {
+				maxPath = out[p]
+			}
+			if tot > maxTotal {
+				maxTotal = tot
+			}
+			mu.Unlock()
+			wwg.Add(1)
+			go func(m ref.Msg, p string) {
+				defer wwg.Done()
+				time.Sleep(60 * time.Millisecond)
+				mu.Lock()
+				out[p]--
+				answered++
+				mu.Unlock()
+				_, _ = pc.Write(ref.EncodeUDP(ref.Msg{Type: 2, Code: 0x45, MID: m.MID, Token: m.Token, Payload: []byte("ok")}))
+			}(m, p)
+		}
+		wwg.Wait()
+		rec.Eval(fmt.Sprintf("server-side|%s|%d", kind, rep))
+		rec.Count("server_side_limit_cases_"+kind, 1)
+		mu.Lock()
+		if answered == 0 {
+			rec.Count("server_side_no_requests_seen_"+kind, 1)
+		}
+		if maxPath > 1 {
+			rec.Violation("C16/wiring/"+kind+"-server/endpoint-limit-exceeded-on-the-wire", fmt.Sprintf("per-path limit 1: the peer had %d unanswered requests for one path at the same time (max total outstanding %d)", maxPath, maxTotal), c)
+		} else if maxTotal > 3 {
+			rec.Violation("C16/wiring/"+kind+"-server/total-limit-exceeded-on-the-wire", fmt.Sprintf("total limit 3: %d outstanding", maxTotal), c)
+		} else {
+			rec.Count("server_side_requests_answered", int64(answered))
+		}
+		mu.Unlock()
+		_ = pc.Close()
+		srv.Stop()
+		fired.Wait()
+		select {
+		case <-srv.Served:
+		case <-time.After(10 * time.Second):
+		}
+	}
+}
